@@ -17,7 +17,8 @@
     - [reachable_rule fs roots ts r]: [r] is a declared rule reachable from a
       requested name. *)
 From Coq Require Import List String Bool Arith Permutation Relations.
-From Verif Require Import Caco.Load Caco.LoadProofs Caco.LoadGen Gen.CacoBuild.
+From Verif Require Import Lib.Path Caco.Names Caco.Load Caco.LoadProofs Caco.LoadGen Gen.CacoBuild.
+From Verif Require Import Caco.LoadNames Caco.LoadNamesProofs.
 Import ListNotations.
 Local Open Scope string_scope.
 
@@ -77,6 +78,75 @@ Theorem C11_order_irrelevant : forall fs fs' roots roots' kind ts,
   end.
 Proof. exact order_irrelevant. Qed.
 Print Assumptions C11_order_irrelevant.
+
+(** ** Names as written (Caco/LoadNames.v on top of Caco/Names.v)
+
+    [c11_run_raw] takes the BUILD files as written and resolves every rule
+    name, dependency, file and sub-build directory with the model of
+    [makeRelPath] / [makePath]; it is what the correspondence run evaluates. *)
+
+(** A written name matters only through where it leads from the package:
+    "x", "./x", "a/../x", "/x", "x/." are one name. *)
+Theorem C11_names_resolved : forall p f g,
+  rsegs (bs f) = rsegs (bs g) -> rel p f = rel p g.
+Proof. exact rel_same_segs. Qed.
+Print Assumptions C11_names_resolved.
+
+(** The error characterisation and the soundness of the execution order,
+    from the files as written. *)
+Theorem C11_raw_load_error_iff : forall fs roots kind ts,
+  (exists es, c11_run_raw fs roots kind ts = CErr es /\ es <> []) <->
+  read_problem (resolve_fs fs) roots \/ graph_problem (resolve_fs fs) roots kind ts.
+Proof. exact c11_raw_error_iff. Qed.
+Print Assumptions C11_raw_load_error_iff.
+
+Theorem C11_raw_exec_sound : forall fs roots kind ts ex,
+  c11_run_raw fs roots kind ts = CExec ex ->
+  NoDup ex /\
+  (forall r, In r ex <-> reachable_rule (resolve_fs fs) roots ts r) /\
+  (forall e1 a e2, ex = (e1 ++ a :: e2)%list ->
+     forall b n, clos_trans name (dedge (resolve_fs fs) roots) a b ->
+                 declared (resolve_fs fs) roots n -> nname n = b -> ntype n = TRule -> In b e1).
+Proof. exact c11_raw_exec_sound. Qed.
+Print Assumptions C11_raw_exec_sound.
+
+(** Two rules of a reached build file whose written names lead to the same
+    place are an error, however they are spelled and wherever they stand. *)
+Theorem C11_spellings_clash : forall fs roots kind ts q l1 f deps1 l2 g deps2 l3,
+  reached (resolve_fs fs) roots q ->
+  lookup q fs = Some (l1 ++ RBundle f deps1 :: l2 ++ RBundle g deps2 :: l3)%list ->
+  rsegs (bs f) = rsegs (bs g) ->
+  exists es, c11_run_raw fs roots kind ts = CErr es /\ es <> [].
+Proof. exact spellings_clash. Qed.
+Print Assumptions C11_spellings_clash.
+
+(** [read_problem] covers every pair of declarations sharing a name - a
+    rule's name or the name of one of its outputs - in one reached file, in
+    either order, and across two reached files; in particular a rule named
+    like the output of a file set, registered before or after it. *)
+Theorem C11_clash_in_file : forall fs roots q l1 d1 l2 d2 l3 x,
+  reached fs roots q ->
+  lookup q fs = Some (l1 ++ d1 :: l2 ++ d2 :: l3)%list ->
+  In x (names_of d1) -> In x (names_of d2) ->
+  read_problem fs roots.
+Proof. exact clash_in_file. Qed.
+Print Assumptions C11_clash_in_file.
+
+Theorem C11_clash_across_files : forall fs roots q1 q2 ds1 ds2 d1 d2 x,
+  q1 <> q2 -> reached fs roots q1 -> reached fs roots q2 ->
+  lookup q1 fs = Some ds1 -> lookup q2 fs = Some ds2 ->
+  In d1 ds1 -> In d2 ds2 -> In x (names_of d1) -> In x (names_of d2) ->
+  read_problem fs roots.
+Proof. exact clash_across_files. Qed.
+Print Assumptions C11_clash_across_files.
+
+Theorem C11_rule_vs_output_clash : forall fs roots q l1 l2 l3 nm deps outs o deps' outs',
+  reached fs roots q -> In o outs ->
+  (lookup q fs = Some (l1 ++ DRule nm deps outs :: l2 ++ DRule o deps' outs' :: l3)%list \/
+   lookup q fs = Some (l1 ++ DRule o deps' outs' :: l2 ++ DRule nm deps outs :: l3)%list) ->
+  read_problem fs roots.
+Proof. exact rule_vs_output_clash. Qed.
+Print Assumptions C11_rule_vs_output_clash.
 
 (** The loader of the current source still has the shape the model was
     written against: statement skeletons of register / load / load1 /
@@ -178,4 +248,44 @@ Proof.
   - exists "p0". split; [exact Hr|vm_compute; tauto].
   - reflexivity.
   - reflexivity.
+Qed.
+
+(** names as written: the same rule three times under different spellings;
+    dependencies with detours; a sub-build directory written "./s/"; a name
+    that cannot leave its package *)
+Example C11_nonvacuous_spellings :
+  c11_run_raw [("p0", [RBundle "x" []; RBundle "./x" []])] ["p0"] ex_kind ["p0/x"]
+    = CErr [EDup "p0/x"; EPrev] /\
+  c11_run_raw [("p0", [RBundle "a/../x" []; RBundle "/x" []; RBundle "x/." []])] ["p0"] ex_kind ["p0/x"]
+    = CErr [EDup "p0/x"; EPrev; EDup "p0/x"; EPrev] /\
+  c11_run_raw [("p0", [RSub ["./s/"]; RBundle "s/./x" []]); ("p0/s", [RBundle "../x" []])]
+              ["p0"] ex_kind ["p0/s/x"]
+    = CErr [EDup "p0/s/x"; EPrev] /\
+  c11_run_raw [("p0", [RBundle "a" ["//p1/./b"; "zz/../c"; "/p0//c/."]; RBundle "c" []]);
+               ("p1", [RBundle "b" ["/p0/x/../c"]])] ["p0"; "p1"] ex_kind ["p0/a"]
+    = CExec ["p0/c"; "p1/b"; "p0/a"] /\
+  c11_run_raw [("p0", [RBundle "." []; RBundle "a" []])] ["p0"] ex_kind ["p0/a"] = CErr [EUnnamed] /\
+  rsegs (bs "a/../x") = rsegs (bs "./x").
+Proof. vm_compute. repeat split. Qed.
+
+(** a rule named like the output of a file set: registered after it, before
+    it, and in another reached file - always an error, and a [read_problem]
+    by the theorem *)
+Example C11_nonvacuous_rule_vs_output :
+  c11_run_raw [("p0", [RFileSet "f" ["x.txt"] []; RBundle "f.fileset" []; RBundle "free" []])]
+              ["p0"] ex_kind ["p0/free"] = CErr [EDup "p0/f.fileset"; EPrev] /\
+  c11_run_raw [("p0", [RBundle "f.fileset" []; RBundle "free" []; RFileSet "f" ["x.txt"] []])]
+              ["p0"] ex_kind ["p0/free"] = CErr [EDup "p0/f.fileset"; EPrev] /\
+  c11_run_raw [("p0", [RBundle "s/f.fileset" []; RSub ["s"]; RBundle "free" []]);
+               ("p0/s", [RFileSet "f" ["//p0/x.txt"] []])]
+              ["p0"] ex_kind ["p0/free"] = CErr [EDup "p0/s/f.fileset"; EPrev] /\
+  read_problem (resolve_fs [("p0", [RBundle "f.fileset" []; RBundle "free" []; RFileSet "f" ["x.txt"] []])])
+               ["p0"].
+Proof.
+  split; [vm_compute; reflexivity|]. split; [vm_compute; reflexivity|]. split; [vm_compute; reflexivity|].
+  apply (rule_vs_output_clash _ _ "p0" [] [DRule "p0/free" [] []] []
+           "p0/f" ["p0/x.txt"] ["p0/f.fileset"] "p0/f.fileset" [] []).
+  - exists "p0". split; [now left|apply rt_refl].
+  - now left.
+  - right. vm_compute. reflexivity.
 Qed.
